@@ -2,6 +2,7 @@
 # usage: ./regen_evidence.sh [tier] [Cxx ...]  - runs the checks one after the other on /repo's working tree and prints one
 # line per check (exit code, wall time, violations, exhaustive).  The evidence files are rewritten by the checks themselves.
 cd "$(dirname "$0")"
+mkdir -p bin evidence replay
 tier=${1:-quick}; shift
 props=${@:-C01 C02 C03 C04 C05 C06 C07 C08 C09 C10 C11 C12 C13 C14 C15 C16 C17 C18 C19 C20}
 if [ -n "$(git -C /repo status --porcelain)" ]; then echo "/repo is not clean"; exit 2; fi
